@@ -106,7 +106,8 @@ theorem monStep_clean (st : Bool) (m : Mon) (o : Obs) (h : CoreClean m) (hok : c
   | commit pos reopen =>
     obtain ⟨c1, c2, c3, c4⟩ := hok
     simp only [monStep]
-    apply clean_congr (m := flag (flag (flag (flag m _ _) _ _) _ _) _ _) rfl
+    apply clean_congr (m := flag (flag (flag (flag (flag m _ _) _ _) _ _) _ _) _ _) rfl
+    apply flag_clean _ _ _ (Or.inr (by decide))
     apply flag_clean _ _ _ (Or.inl (by simp [c4]))
     apply flag_clean _ _ _ (Or.inl (by
       simp only [(flag_fields _ _ _).2, decide_eq_true_eq]; exact c3))
@@ -148,7 +149,7 @@ theorem monStep_clean (st : Bool) (m : Mon) (o : Obs) (h : CoreClean m) (hok : c
   | ackRet => exact h
   | flushFail r => exact h
   | sendFail => exact h
-  | waited => exact h
+  | waited => exact clean_congr (m := m) rfl h
   | crash => exact h
 
 theorem le_maxL_aux : ∀ (l : List Nat) (b x : Nat), x ≤ b ∨ x ∈ l → x ≤ l.foldl max b
